@@ -265,9 +265,9 @@ def _poll_helpers(ctx) -> Dict[int, Tuple[Func, str]]:
 
 
 def rule_matcher_loop_poll(ctx, rep, rid: str, budgets: bool = False, rid_budget: str = "") -> None:
-    rep.rule(rid, "every regex matcher loop increments a step counter and polls the deadline callback every poll_interval steps on every iteration path (inline or through a helper it calls unconditionally), raising RegexTimeoutError; nothing the loop calls resets the counter", floor=3)
+    rep.rule(rid, "every regex matcher loop increments a step counter and polls the deadline callback every poll_interval steps on every iteration path (inline or through a helper it calls unconditionally), raising RegexTimeoutError; nothing the loop calls resets the counter", floor=1)
     if budgets:
-        rep.rule(rid_budget, "every regex matcher loop checks the step budget and the backtrack-stack budget on every iteration path", floor=3)
+        rep.rule(rid_budget, "every regex matcher loop checks the step budget and the backtrack-stack budget on every iteration path", floor=1)
     helpers = _poll_helpers(ctx)
     cg = ctx.cg
     for f, loop in ctx.facts.matcher_loops():
